@@ -216,7 +216,7 @@ bool base64_decode(const std::string& in, secure_buffer<uint8_t>& out,
         out = secure_buffer<uint8_t>();
         return false;
     }
-    std::memcpy(out.data(), tmp.data(), tmp.size());
+    if (!tmp.empty()) std::memcpy(out.data(), tmp.data(), tmp.size());
     if (!tmp.empty()) std::memset(tmp.data(), 0, tmp.size());
     return true;
 }
@@ -493,7 +493,7 @@ bool base32_decode(const std::string& in, secure_buffer<uint8_t>& out,
         out = secure_buffer<uint8_t>();
         return false;
     }
-    std::memcpy(out.data(), tmp.data(), tmp.size());
+    if (!tmp.empty()) std::memcpy(out.data(), tmp.data(), tmp.size());
     if (!tmp.empty()) std::memset(tmp.data(), 0, tmp.size());
     return true;
 }
@@ -594,7 +594,7 @@ bool base36_decode(const std::string& in, secure_buffer<uint8_t>& out) noexcept 
         out = secure_buffer<uint8_t>();
         return false;
     }
-    std::memcpy(out.data(), tmp.data(), tmp.size());
+    if (!tmp.empty()) std::memcpy(out.data(), tmp.data(), tmp.size());
     if (!tmp.empty()) std::memset(tmp.data(), 0, tmp.size());
     return true;
 }
